@@ -1804,7 +1804,7 @@ impl Runner {
                         let due = match a.when {
                             When::Dist(d) => end - off <= d,
                             When::StoppedFor(n) => !self.go_on() && stopped_for >= n,
-                        } || self.rest_outside as f64 * self.dt > 120.0;
+                        } || self.rest_outside as f64 * self.dt > 120.0 || (!self.go_on() && stopped_for as f64 * self.dt > 120.0);
                         if due {
                             break;
                         }
